@@ -184,7 +184,7 @@ Qed.
 
 (* the domain: a keyword item that is mapped to a field carries only values with a substring form
    the implementation produces (strings); numbers keep their exact-match form (D28) *)
-Definition kw_value_ok (v : value) : bool := match v with V (ANum _) => false | _ => true end.
+Definition kw_value_ok (v : value) : bool := match v with V (ANum _) | VExp _ => false | _ => true end.
 Definition kw_ok (i : ditem) : bool :=
   match i_field i with
   | None => if fres_some (afn None) && fm None then forallb kw_value_ok (i_vals i) else true
@@ -196,7 +196,7 @@ Definition many_neg (i : ditem) : bool :=
   match afn (i_field i) with FMany _ => fm (i_field i) && i_neg i | _ => false end.
 
 Lemma wild_kw_value v : kw_value_ok v = true -> wild_value v = kw_value v.
-Proof. destruct v as [[ | | | |? ?|? ? ?|? ?| ]|]; try reflexivity. discriminate. Qed.
+Proof. destruct v as [[ | | | |? ?|? ? ?|? ?| ]|]; try reflexivity; discriminate. Qed.
 Lemma rename_ref_kw_ok vs :
   forallb kw_value_ok vs = true -> forallb kw_value_ok (flat_map (rename_ref fm afn) vs) = true.
 Proof.
@@ -994,4 +994,16 @@ Lemma change_logsource_follower_example :
   rules_consistent [PItem no_conds (TChangeLogsource None None (Some [115; 121; 115])); PItem c_win (TPrefix [119; 46])] ls_rule = true /\
   r_dets (apply_pipeline [PItem no_conds (TChangeLogsource None None (Some [115; 121; 115])); PItem c_win (TPrefix [119; 46])] ls_rule)
   = r_dets ls_rule.
+Proof. split; vm_compute; reflexivity. Qed.
+
+(* keyword entry with the all modifier mapped to two fields: '|all': [a, b*] with null -> [m, r] is
+   any of [{m|contains|all: [a, b*]}, {r|contains|all: [a, b*]}] *)
+Definition kwall_rule : rule :=
+  mkR [([115], DD [DI (mkI None [V (AStr false [PStr [97]]); V (AStr false [PStr [98]; PMulti])] true false [])] true)] [115] [].
+Lemma keyword_all_example :
+  rdocs_of (apply_tspec no_conds (TFieldMap [(None, FMany [[109]; [114]])]) kwall_rule)
+  = [([115], All [Any [Entry (mkI (Some [109]) [V (AStr false [PMulti; PStr [97]; PMulti]); V (AStr false [PMulti; PStr [98]; PMulti])] true false []);
+                       Entry (mkI (Some [114]) [V (AStr false [PMulti; PStr [97]; PMulti]); V (AStr false [PMulti; PStr [98]; PMulti])] true false [])]])]
+  /\ rdocs_of (apply_tspec no_conds (TFieldMap [(None, FMany [[109]; [114]])]) kwall_rule)
+     = rewrite_tspec no_conds (TFieldMap [(None, FMany [[109]; [114]])]) (rdocs_of kwall_rule).
 Proof. split; vm_compute; reflexivity. Qed.
